@@ -1,4 +1,8 @@
-"""Per-property configuration of ./check (theorem module, namespace, evidence texts)."""
+"""Per-property configuration of ./check: one file props/Cxx.py per claimed property, each defining
+PROP = dict(module, namespace, rule, trusted, assumptions, level_text, level_note[, technique])."""
+import glob, importlib.util, os
+
+_HERE = os.path.dirname(os.path.abspath(__file__))
 
 COMMON_TRUSTED = [
     "Lean 4.33.0 kernel; axioms allowed in property theorems: propext, Classical.choice, Quot.sound (audited by #print axioms on every run)",
@@ -7,85 +11,16 @@ COMMON_TRUSTED = [
     "hand-written Lean models are tied to /repo only by the differential correspondence run on every check (sampled, not proved)",
 ]
 
-PROPS = {
-    "C15": dict(
-        module="GolibsVerif.Theorems.C15", namespace="GolibsVerif.C15",
-        rule="scripts of Read/Write calls against a scripted wrapped reader/writer (short reads, (0,nil), EOF, injected errors, "
-             "negative counts); non-trivial = the limit is reached or a fault is injected; distinct = distinct case line",
-        trusted=["the wrapped io.Reader/io.Writer is modelled as an arbitrary per-call response function obeying 0<=n<=len(p)",
-                 "uint64/uint arithmetic modelled on Nat; theorem trunc_offset_le_limit and run_budget show no subtraction wraps"],
-        level_text="Lean theorems (induction over every history of Read/Write calls and every behaviour of the wrapped object) about an "
-                   "executable model of limitedReader.Read and TruncatedWriter.Write; the model is tied to the Go code by running both on "
-                   "the same generated scripts on every check",
-        level_note="trusted: Lean kernel; the differential correspondence (sampled); wrapped reader obeys io.Reader (n<=len(p)); "
-                   "uint arithmetic on Nat with no-wrap shown by invariant",
-        assumptions=["wrapped reader obeys the io.Reader contract (n <= len(p)); a reader returning n > len(p) is outside the model"],
-    ),
-}
+PROPS = {}
+for _f in sorted(glob.glob(os.path.join(_HERE, "props", "C*.py"))):
+    _spec = importlib.util.spec_from_file_location("props_" + os.path.basename(_f)[:-3], _f)
+    _m = importlib.util.module_from_spec(_spec)
+    _spec.loader.exec_module(_m)
+    PROPS[os.path.basename(_f)[:-3]] = _m.PROP
 
 # properties not (yet) claimed, with the reason that goes into MANIFEST.not_applicable
 _NOT_BUILT = "check not built yet in this round of work (design in DESIGN.md §5; the technique applies)"
-NOT_APPLICABLE = {f"C{i:02d}": _NOT_BUILT for i in range(1, 21)}
-NOT_APPLICABLE.pop("C15", None)
+NOT_APPLICABLE = {f"C{i:02d}": _NOT_BUILT for i in range(1, 21) if f"C{i:02d}" not in PROPS}
 
 # commits in /repo that add verif-tagged hooks
-HOOK_COMMITS = []
-
-PROPS["C03"] = dict(
-    module="GolibsVerif.Theorems.C03", namespace="GolibsVerif.C03",
-    rule="names built from a label grammar (lengths 0,1,62,63,64; totals 252..255; '-', '_', digits at first/inner/last; all-digit TLD; "
-         "xn--; IDN; invalid UTF-8; empty labels; trailing/leading dots) and single labels; non-trivial = idna.ToASCII succeeds and the "
-         "length gate passes, so that a label rule decides; distinct = distinct case line",
-    trusted=["idna.ToASCII is a parameter of the model (its answer for the input travels with each case as an oracle field)",
-             "constants MaxDomainLabelLen / MaxDomainNameLen / MaxServiceLabelLen are regenerated from netutil on every run (Gen/Consts.lean)",
-             "strings.Cut loop modelled as a fold over the '.'-split (lemma splitOn_cut)"],
-    assumptions=["rune iteration over labels is modelled byte-wise (equivalent because every accepted rune is ASCII); RuneError.Rune of "
-                 "non-ASCII runes is compared only as 'nonascii'"],
-    level_text="Lean theorems characterising the three validators by the documented grammar for every string and every idna.ToASCII "
-               "behaviour, plus inclusion chain and error shape; model tied to the Go code differentially on every run",
-    level_note="trusted: Lean kernel; differential correspondence (sampled); idna.ToASCII as a parameter",
-)
-NOT_APPLICABLE.pop("C03", None)
-
-PROPS["C02"] = dict(
-    module="GolibsVerif.Theorems.C02", namespace="GolibsVerif.C02",
-    rule="IP texts from a shape grammar (0-9 fields x ellipsis position x IPv4 tail x zone x brackets x port digits) with byte mutations; "
-         "every string over {0,1,9,a,f,g,:,.,%,[,]} up to length 3 (quick) / 4 (thorough) through model AND implementation; direct-only "
-         "exhaustive comparison with netip up to length 5 (quick) / 8 (thorough); hostnames from the C03 grammar. non-trivial = accepted by "
-         "one side or a near miss (>=2 separators); distinct = distinct case line",
-    trusted=["Lean model of net/netip ParseAddr/ParseAddrPort (go1.24 source, statement by statement), validated against the real functions by std.* ops every run",
-             "unexported helpers reached through netutil/export_verif.go (build tag verif)"],
-    assumptions=["rune loops over digits/hex digits are modelled byte-wise (equivalent because the accepted characters are ASCII)"],
-    level_text="Lean theorems: the allocation-free hostname validators equal their error-returning counterparts for every input and every "
-               "idna behaviour; the IPv4 validator equals the netip IPv4 parser model for every string; IPv6/zone/port agreement is "
-               "established by correspondence plus exhaustive enumeration (partial, see level_note)",
-    level_note="IPv6 scanner equivalence with netip.parseIPv6 is NOT yet a theorem: it is checked by exhaustive enumeration over an "
-               "11-letter alphabet and a grammar-directed stream on every run; trusted: Lean kernel, netip model, correspondence",
-)
-NOT_APPLICABLE.pop("C02", None)
-
-PROPS["C04"] = dict(
-    module="GolibsVerif.Theorems.C04", namespace="GolibsVerif.C04",
-    rule="addresses (random, single non-zero byte at every position, 4in6, bad lengths) encoded and decoded in four spellings; ARPA names from "
-         "a label grammar and near-canonical mutations of real PTR names (leading zeros, '+', 4/5 labels, 31/33 nibbles, two-char labels, "
-         "non-ASCII look-alikes); non-trivial = the name carries an .arpa suffix or the address is valid; distinct = distinct case line",
-    trusted=["Lean model of netip.ParseAddr (validated by std.parseaddr ops)", "idna.ToASCII as a parameter (oracle field)",
-             "constants arpaV4Suffix/arpaV6Suffix/arpaV6MaxLen regenerated from netutil on every run"],
-    assumptions=["net.IP.To4/To16, strconv.Itoa/FormatUint of a byte are modelled (ipTo4, ipTo16, itoa, hexDigit), sampled by the tie"],
-    level_text="Lean theorems about the model of reversed.go: encoder produces the canonical PTR name; decoder inverts it in any case and with "
-               "a trailing dot; whatever the decoder accepts is canonical; tie by differential correspondence on every run",
-    level_note="trusted: Lean kernel; correspondence (sampled); netip model; idna.ToASCII contract IDNA-1 where stated",
-)
-PROPS["C05"] = dict(
-    module="GolibsVerif.Theorems.C05", namespace="GolibsVerif.C05",
-    rule="all label sequences of length 0..3 (quick) / 0..5 (thorough) over {0,7,10,255,00,256,01,x,a,F,aa,1a} under both roots for "
-         "PrefixFromReversedAddr and ExtractReversedAddr, plus grammar-directed names (0..36 labels, case variants, look-alike roots, "
-         "non-ASCII) and the unexported helpers; non-trivial = the name has an ARPA root suffix; distinct = distinct case line",
-    trusted=["Lean model of netip.ParseAddr", "idna.ToASCII as a parameter (oracle field)", "strconv.ParseUint(s,10,8) modelled as parseUintDec"],
-    assumptions=["the independent Go decoder written from the property text (specArpaPrefix/specExtract) is the direct oracle"],
-    level_text="Lean theorems about the model of reversed.go's prefix decoders (totality for every input, masked result, agreement with the "
-               "label-level specification); tie by differential correspondence and bounded-exhaustive label sequences on every run",
-    level_note="trusted: Lean kernel; correspondence (sampled + bounded exhaustive); netip model; idna.ToASCII contracts IDNA-1/2 where stated",
-)
-NOT_APPLICABLE.pop("C04", None)
-NOT_APPLICABLE.pop("C05", None)
+HOOK_COMMITS = ["710d639"]
